@@ -118,13 +118,20 @@ class Session:
 
     def call(self, name, *args, **kwargs):
         """Call a client method; -> ('ret', value) / ('exc', type name, message)."""
+        from .. import core as _core
+        _core.guard_enter(("client.%s%r" % (name, args))[:2000])
         with self.patched():
             try:
-                return ("ret", getattr(self.client, name)(*args, **kwargs))
+                with impl.cpu_guard():
+                    return ("ret", getattr(self.client, name)(*args, **kwargs))
             except sl_ms.Error as e:
                 return ("exc", "Error", str(e))
+            except impl.CpuLimit:
+                return ("exc", "CpuLimit", "call did not return within 8 s of CPU time")
             except Exception as e:  # noqa: BLE001
                 return ("exc", impl.exc_bucket(e), repr(e)[:200])
+            finally:
+                _core.guard_exit()
 
     def close(self):
         # Client.__del__ closes the socket; make sure nothing lingers
